@@ -22,7 +22,8 @@ WorkerChecks(r) ==
     \cup (IF r.late = 0 THEN {} ELSE {"DeliveredAfterReturn"})
     \cup (IF r.returned /\ ~r.errctx THEN {"WrongError"} ELSE {})
 
-Failures == {"sshd-eof", "audit-eof", "audit-malformed", "output-fails", "sshd-not-fifo", "sshd-missing",
+Failures == {"sshd-eof", "audit-eof", "sshd-eof-partial", "audit-eof-partial", "audit-malformed", "audit-unknown-type",
+             "output-fails", "output-breaks-inflight", "sshd-not-fifo", "sshd-missing",
              "audit-not-fifo", "audit-missing", "bad-login-pid", "http-port-busy"}
 Signals == {"sigterm", "sigint"}
 
